@@ -207,7 +207,7 @@ bool OPNMIDIplay::LoadMIDI_post()
     m_sequencerInterface->onloopStart_userData = synth.m_loopStartHook ? synth.m_loopStartHookData : hooks.onLoopStart_userData;
     m_sequencerInterface->onloopEnd = synth.m_loopEndHook ? synth.m_loopEndHook : hooks.onLoopEnd;
     m_sequencerInterface->onloopEnd_userData = synth.m_loopEndHook ? synth.m_loopEndHookData : hooks.onLoopEnd_userData;
-    m_sequencer->setLoopHooksOnly(synth.m_loopStartHook != NULL);
+    m_sequencer->setLoopHooksOnly(synth.m_loopStartHook != NULL || m_setup.loopHooksOnly);
 #endif
 
     return true;
